@@ -3,7 +3,6 @@ package meta
 import (
 	"fmt"
 
-	"github.com/nspcc-dev/neofs-node/pkg/local_object_storage/blobstor/common"
 	"github.com/nspcc-dev/neofs-node/pkg/local_object_storage/shard/mode"
 )
 
@@ -33,7 +32,9 @@ func (db *DB) SetMode(m mode.Mode) error {
 		err = db.Open(false)
 	}
 	if err == nil && !m.NoMetabase() && !m.ReadOnly() {
-		err = db.Init(common.ID{})
+		// db.mode is still the old one here, and it may be a mode in
+		// which init is a no-op.
+		err = db.initWritable(false)
 	}
 
 	if err != nil {
